@@ -26,7 +26,7 @@ type C20Case struct {
 }
 
 var rootShapes = []string{"dup-ID", "dup-Destination", "dup-Version", "dup-InResponseTo", "x:ID-before", "x:ID-after", "x:Destination-before", "x:InResponseTo-after",
-	"issuer-twice", "issuer-twice-first-evil", "issuer-comment", "issuer-cdata", "issuer-child", "issuer-child-middle", "issuer-pi-middle", "issuer-pi-leading", "issuer-other-ns-first", "issuer-nested-deeper", "shadow-prefix", "status-before-issuer", "empty-attrs"}
+	"issuer-twice", "issuer-twice-first-evil", "issuer-comment", "issuer-cdata", "issuer-child", "issuer-child-middle", "issuer-pi-middle", "issuer-pi-leading", "issuer-other-ns-first", "issuer-nested-deeper", "shadow-prefix", "status-before-issuer", "empty-attrs", "enc-issuer-after", "enc-issuer-first", "enc-status-after", "enc-root-attrs"}
 
 var prologs = []string{"", "", `<?xml version="1.0" encoding="UTF-8"?>`, `<?xml version="1.0" encoding="utf-8"?>`, `<?xml version="1.0" encoding="US-ASCII"?>`, `<?xml version="1.0" encoding="ISO-8859-1"?>`,
 	`<?xml version="1.0" encoding="UTF-16"?>`, "\xEF\xBB\xBF", "\xEF\xBB\xBF" + `<?xml version="1.0"?>`, `<!DOCTYPE x [<!ENTITY e "v">]>`, "<!-- c -->\n", `<?pi x?>`, "\n \t"}
@@ -161,6 +161,42 @@ func applyRootShape(root *etree.Element, shape string, evil string) {
 		}
 	case "empty-attrs":
 		post("Consent", "")
+	case "enc-issuer-after", "enc-issuer-first", "enc-status-after", "enc-root-attrs":
+		// an EncryptedAssertion (anyone can encrypt to the SP's certificate) whose PLAINTEXT is not an assertion
+		// but another Issuer / Status / a whole second Response: what decryption splices in must not change which
+		// values the validated result reports
+		var plain *etree.Element
+		switch shape {
+		case "enc-status-after":
+			plain = etree.NewElement("samlp:Status")
+			plain.CreateAttr("xmlns:samlp", h.NSProtocol)
+			plain.CreateElement("samlp:StatusCode").CreateAttr("Value", h.StatusSuccess)
+		case "enc-root-attrs":
+			plain = etree.NewElement("samlp:Response")
+			plain.CreateAttr("xmlns:samlp", h.NSProtocol)
+			plain.CreateAttr("ID", "_evil")
+			plain.CreateAttr("InResponseTo", "_evil_req")
+			plain.CreateAttr("Destination", "https://evil.example/acs")
+			plain.CreateAttr("Version", "2.0")
+		default:
+			plain = etree.NewElement("saml:Issuer")
+			plain.CreateAttr("xmlns:saml", h.NSAssertion)
+			plain.SetText("https://evil-idp.example.net")
+		}
+		alg := h.DataAlgs[0]
+		e := &h.EncSpec{DataAlg: alg, Transport: h.Transports[0], Digest: "-", To: h.CertRef{Key: "E1", Window: "wide"}, Key: make([]byte, h.KeyLen(alg)), IV: make([]byte, 12)}
+		ea, err := e.EncryptElement(h.Serialize(plain, h.Layout{}), h.NSStyle{P: "samlp", A: "saml"})
+		if err != nil {
+			return
+		}
+		ea.CreateAttr("xmlns:saml", h.NSAssertion)
+		at := len(root.Child)
+		if is := issuers(); len(is) > 0 && shape != "enc-issuer-first" {
+			at = is[0].Index() + 1
+		} else if shape == "enc-issuer-first" {
+			at = 0
+		}
+		root.InsertChildAt(at, ea)
 	}
 }
 
@@ -225,6 +261,7 @@ func genC20(t *rapid.T) C20Case {
 		t.Fatalf("harness: %v", err)
 	}
 	if c.Source == "shaped" {
+		c.SP.Enc = h.KeyCfg{Mode: "tls", Field: h.CertRef{Key: "E1", Window: "wide"}} // for the enc-* shapes
 		n := rapid.IntRange(1, 3).Draw(t, "nShapes")
 		for i := 0; i < n; i++ {
 			s := rapid.SampledFrom(rootShapes).Draw(t, "shape")
@@ -377,6 +414,7 @@ func TestC20_Grid(t *testing.T) {
 						continue
 					}
 					sp := h.BaseSP()
+					sp.Enc = h.KeyCfg{Mode: "tls", Field: h.CertRef{Key: "E1", Window: "wide"}}
 					c := C20Case{SP: sp, Kind: kind, Source: "shaped", Prolog: pro}
 					var root *etree.Element
 					var err error
